@@ -334,6 +334,10 @@ def run_case(acc, cseed, tmpdir):
     doc, info = g.build(rng)
     root_pub = g.pub65(info["root"])
     acc.evaluations += 1
+    for ln in info["crafted"].values():
+        acc.count("signatures_of_chosen_length")
+        if ln == 64:
+            acc.count("valid_der_signatures_of_exactly_64_bytes")
     base = compare(acc, doc, root_pub, tmpdir, "genuine", case)
     depth = max(len(path_of(doc, t)) for t in doc["targets"])
     shape = ",".join("%s<%s" % (n, p) for n, p in sorted(info["parents"].items()))
